@@ -13,6 +13,8 @@
 //	l3 behave <zone> <honest|nsauth|nschange>       what the (current) child says about itself
 //	l3 qcross <zone> <ttl> [cd]        a second question crosses the first one's referral for <zone>; the parent raises the TTL
 //	l3 qrace <zone> [cd]               sr.<zone> is asked while the zone's lease runs out (self-referral race)
+//	l3 slowval delay= ttl=             self-contained real-time case (slow validation of a referral: the lease is anchored at its observation)
+//	l3 inflight delay=                 self-contained real-time case (a lookup in flight at the old servers vs a resolution after the lease end)
 //	l3 slowref sec= delay= act=        self-contained real-time case (slow child referral, 1 s ancestor lease)
 //	l3 audit                           only run the state audit
 //
@@ -77,6 +79,10 @@ type inst struct {
 	mu        sync.Mutex
 	mode      string
 	slowBelow string
+	slowType  uint16 // 0: any query type
+
+	refAt    time.Time     // real time this incarnation's referral was last handed out (server side)
+	refLease time.Duration // min(NS, DS) TTL of that referral, 12 h at most
 	slowFor   time.Duration
 }
 
@@ -294,7 +300,7 @@ func (s *scenario) hook(i *inst) {
 			// slowref: the FIRST referral for a name below slowBelow is slow (real time)
 			i.mu.Lock()
 			defer i.mu.Unlock()
-			if i.slowBelow != "" && i.slowFor > 0 && dns.IsSubDomain(i.slowBelow, lcn(q.Name)) {
+			if i.slowBelow != "" && i.slowFor > 0 && dns.IsSubDomain(i.slowBelow, lcn(q.Name)) && (i.slowType == 0 || i.slowType == q.Qtype) {
 				d := i.slowFor
 				i.slowFor = 0
 				return d
@@ -391,6 +397,14 @@ func (s *scenario) observe(from *inst, m *dns.Msg) {
 	}
 	s.refMu.Lock()
 	s.pending = append(s.pending, refRec{from: from, to: to, nsTTL: nsTTL, dsTTL: dsTTL, hasDS: hasDS})
+	to.refAt = time.Now()
+	to.refLease = time.Duration(nsTTL) * time.Second
+	if hasDS && s.dnssec && time.Duration(dsTTL)*time.Second < to.refLease {
+		to.refLease = time.Duration(dsTTL) * time.Second
+	}
+	if to.refLease > ceiling {
+		to.refLease = ceiling
+	}
 	s.refMu.Unlock()
 }
 
@@ -542,6 +556,7 @@ func execNew(f []string) vlib.Res {
 		cfg.QnameMinLevel = qmin
 		if upstreamTimeout > 0 {
 			cfg.Timeout.Duration = time.Duration(upstreamTimeout) * time.Millisecond
+			cfg.QueryTimeout.Duration = 8 * time.Second
 		}
 	}})
 	s.t0 = time.Now()
@@ -1073,6 +1088,12 @@ func execSlowRef(f []string) vlib.Res {
 		}
 		return "ok", strings.Join(impls, ";")
 	}
+	return twice(once)
+}
+
+// twice runs a self-contained real-time case; a FAIL is only reported when it
+// reproduces with the same signature on a fresh world.
+func twice(once func() (string, string)) vlib.Res {
 	v1, impl := once()
 	if v1 != "ok" {
 		v2, impl2 := once()
@@ -1085,7 +1106,7 @@ func execSlowRef(f []string) vlib.Res {
 			return ""
 		}
 		if v2 == "ok" || sig(v2) != sig(v1) {
-			v1 = "ok" // not reproducible on a fresh world: real-time noise, nothing is claimed
+			v1 = "ok"
 		} else {
 			v1, impl = v2, impl2
 		}
@@ -1094,12 +1115,109 @@ func execSlowRef(f []string) vlib.Res {
 	return vlib.Res{Impl: impl, Oracle: v1, Tags: "nt,l3,realtime"}
 }
 
+// execSlowVal (l3 slowval delay=<ms> ttl=<s>): the lease is measured from the moment the
+// referral was OBSERVED, however long its validation takes. The signed parent's DNSKEY
+// answer (needed to validate the child's referral) is slow; afterwards the stored lease of
+// the child, measured from the instant the parent's server handed the referral out, may
+// exceed the granted TTL only by network latency (tolerance 1 s, retried on a fresh world).
+func execSlowVal(f []string) vlib.Res {
+	m := kv(f)
+	delay, ttl := "1500", "3"
+	if v, ok := m["delay"]; ok {
+		delay = v
+	}
+	if v, ok := m["ttl"]; ok {
+		ttl = v
+	}
+	return twice(func() (string, string) {
+		execL3(strings.Fields("l3 new d=2 sec=1 ns=300," + ttl + " ds=300,300 sg=11 attl=300 neg=300 pf=0 qmin=0 oob=0 to=3000"))
+		s := cur
+		t := s.current("test.")
+		t.mu.Lock()
+		t.slowBelow, t.slowType, t.slowFor = "test.", dns.TypeDNSKEY, time.Duration(vlib.Atoi(delay))*time.Millisecond
+		t.mu.Unlock()
+		r := execL3(strings.Fields("l3 q www.vic.test. A do"))
+		if strings.HasPrefix(r.Oracle, "FAIL") && !strings.Contains(r.Oracle, "cd1-") {
+			return r.Oracle, r.Impl
+		}
+		v := s.current("vic.test.")
+		for _, e := range authority.VerifC08Entries(resolver.VerifDelegations(s.p.Resolver)) {
+			if lcn(e.Zone) != "vic.test." || v.refAt.IsZero() {
+				continue
+			}
+			if excess := e.ExpiresAt.Sub(v.refAt) - v.refLease; excess > time.Second {
+				return fmt.Sprintf("FAIL sig=l3/lease/anchored-after-observation zone=vic.test. bucket=%d granted=%s stored-from-observation=%s", bucket(e), v.refLease, e.ExpiresAt.Sub(v.refAt).Round(time.Millisecond)), r.Impl
+			}
+		}
+		return "ok", r.Impl
+	})
+}
+
+// execInflight (l3 inflight delay=<ms>): a lookup still in flight at the OLD servers of a
+// re-pointed zone must not be shared with a resolution that started after the lease end and
+// already follows the parent. Client A's question makes the old vic.test. server sit on the
+// minimised question `deep.vic.test.`; meanwhile the parent re-points vic.test. and its 1 s
+// (real) lease ends; client B then asks another name that minimises to the same question.
+func execInflight(f []string) vlib.Res {
+	m := kv(f)
+	delay := "1600"
+	if v, ok := m["delay"]; ok {
+		delay = v
+	}
+	return twice(func() (string, string) {
+		execL3(strings.Fields("l3 new d=3 sec=0 ns=300,1,3600 ds=300,300,3600 sg=000 attl=300 neg=300 pf=0 qmin=5 oob=0 to=3000"))
+		s := cur
+		old := s.current("vic.test.")
+		old.mu.Lock()
+		old.slowBelow, old.slowFor = "deep.vic.test.", time.Duration(vlib.Atoi(delay))*time.Millisecond
+		old.mu.Unlock()
+		done := make(chan struct{})
+		go func() {
+			defer close(done)
+			s.p.Query("long.deep.vic.test.", dns.TypeA, l3.Flags{})
+		}()
+		time.Sleep(150 * time.Millisecond)
+		if old.refAt.IsZero() {
+			<-done
+			return "ok", "no-referral"
+		}
+		s.markWithdrawn(old)
+		par := old.parent
+		for k := 2; k <= 3; k++ {
+			o := s.current(chainNames[k-1])
+			par = s.addInst(k, o.gen+1, par, 300, 300, false, "new")
+		}
+		if w := time.Until(old.refAt.Add(old.refLease + 150*time.Millisecond)); w > 0 {
+			time.Sleep(w)
+		}
+		resp := s.p.Query("www.deep.vic.test.", dns.TypeA, l3.Flags{})
+		verdict, impl := "ok", "noreply"
+		if resp != nil {
+			impl = "rcode=" + dns.RcodeToString[resp.Rcode]
+			for _, sec := range [][]dns.RR{resp.Answer, resp.Ns} {
+				for _, rr := range sec {
+					if o, kind := s.origin(rr); o != nil && o.gen == 0 && (o.idx == 2 || o.idx == 3) {
+						verdict = fmt.Sprintf("FAIL sig=l3/reply/shared-inflight-lookup-from-old-servers kind=%s from=%s#%d rr=%q", kind, o.name, o.gen, strings.Join(strings.Fields(rr.String()), " "))
+					}
+				}
+			}
+		}
+		<-done
+		return verdict, impl
+	})
+}
+
 func execL3(f []string) vlib.Res {
 	if f[1] == "new" {
 		return execNew(f)
 	}
-	if f[1] == "slowref" {
+	switch f[1] {
+	case "slowref":
 		return execSlowRef(f)
+	case "slowval":
+		return execSlowVal(f)
+	case "inflight":
+		return execInflight(f)
 	}
 	s := cur
 	if s == nil {
